@@ -4,13 +4,34 @@ package gen
 // C11, serialised and not shared through library code). They only describe what
 // the workload reached; no verdict depends on them.
 type probeSet struct {
-	argmaps int
+	argmaps        int
+	genSchemas     int
+	genFaultySch   int
+	genLonely      int
+	genDocs        int
+	genDocsFaulted int
+	genFaults      int
+	faultKinds     [64]int
 }
 
 var probes probeSet
 
+var faultKindNames []string
+
 func Probes() map[string]int {
-	return map[string]int{"argument_maps_resolved": probes.argmaps}
+	m := map[string]int{
+		"argument_maps_resolved":             probes.argmaps,
+		"gen_schemas":                        probes.genSchemas,
+		"gen_schemas_with_injected_faults":   probes.genFaultySch,
+		"gen_schemas_with_memberless_iface":  probes.genLonely,
+		"gen_documents":                      probes.genDocs,
+		"gen_documents_with_injected_faults": probes.genDocsFaulted,
+		"gen_faults_injected":                probes.genFaults,
+	}
+	for i, n := range faultKindNames {
+		m["gen_fault:"+n] = probes.faultKinds[i]
+	}
+	return m
 }
 
 // bump increments a probe counter; tasks run one at a time, and the function
@@ -19,3 +40,81 @@ func Probes() map[string]int {
 //
 //go:norace
 func bump(p *int) { *p++ }
+
+//go:norace
+func noteFaults(names []string) {
+	for _, n := range names {
+		idx := -1
+		for i, k := range faultKindNames {
+			if k == n {
+				idx = i
+			}
+		}
+		if idx < 0 && len(faultKindNames) < len(probes.faultKinds) {
+			faultKindNames = append(faultKindNames, n)
+			idx = len(faultKindNames) - 1
+		}
+		if idx >= 0 {
+			probes.faultKinds[idx]++
+		}
+		probes.genFaults++
+	}
+}
+
+// GenPool is what the typed generator hands to a session or run: one valid
+// schema (by the generator's model), optionally faulty variants of it, and
+// documents over it.
+type GenPool struct {
+	Schema       string
+	FaultySchema []string
+	Docs         []string
+}
+
+// GenPoolFor builds a pool from one seed. nFaulty faulty variants of the schema
+// (1-3 injected loader-rule violations each, in different definitions), nDocs
+// documents of which about faultyDocs in 10 carry 1-3 injected faults.
+func GenPoolFor(r *Rng, nFaulty, nDocs, faultyDocsIn10 int) *GenPool {
+	seed := r.U64()
+	s := GenSchema(NewRng(seed))
+	p := &GenPool{Schema: s.Render(NewRng(seed + 1))}
+	bump(&probes.genSchemas)
+	for _, t := range s.Types {
+		if t.Lonely {
+			bump(&probes.genLonely)
+			break
+		}
+	}
+	for i := 0; i < nFaulty; i++ {
+		f := GenSchema(NewRng(seed)) // same model again, then break it
+		InjectSchemaFaults(r, f, r.Range(1, 3))
+		order := seed + 1
+		if r.Chance(1, 2) {
+			order = r.U64() // same definitions, other textual order
+		}
+		p.FaultySchema = append(p.FaultySchema, f.Render(NewRng(order)))
+		bump(&probes.genFaultySch)
+		noteFaults(prefixAll("schema:", f.Faults))
+	}
+	for i := 0; i < nDocs; i++ {
+		nf := 0
+		if r.Intn(10) < faultyDocsIn10 {
+			nf = r.Range(1, 3)
+		}
+		d, noted := GenDoc(r, s, nf)
+		p.Docs = append(p.Docs, d)
+		bump(&probes.genDocs)
+		if len(noted) > 0 {
+			bump(&probes.genDocsFaulted)
+			noteFaults(noted)
+		}
+	}
+	return p
+}
+
+func prefixAll(p string, xs []string) []string {
+	out := make([]string, len(xs))
+	for i, x := range xs {
+		out[i] = p + x
+	}
+	return out
+}
